@@ -165,6 +165,12 @@ def m_C05(tier):
         for alg in ('no', 'inf'):
             for backend, init in (('none', 'empty'), ('dict', 'seeded_archive'), ('plaindict', 'seeded_cache')):
                 cfgs.append(C(mod, alg, None, False, 'default', backend, init))
+    # keys of other types than the default keymap's ints (tuples, strings, bytes): the victim is named by its key
+    for mod in MODULES:
+        for alg in BOUNDED:
+            for km in ('raw', 'str', 'pickle'):
+                for backend in ('none', 'dict'):
+                    cfgs.append(C(mod, alg, 1, False, km, backend, nargs=3, spellings=1, depth=5, states=600 if tier == 'quick' else 5000))
     # many distinct keys on a small alphabet: LFU evicts two entries at a time, so bookkeeping left behind by
     # clear(keepstats=True) / a raising call / purge needs >= 5 distinct keys at maxsize 2 before it can overfill
     for mod in MODULES:
@@ -203,6 +209,10 @@ def m_C06(tier):
                 for backend, init in (('none', 'empty'), ('dict', 'empty'), ('dict', 'seeded_archive')):
                     cfgs.append(C(mod, alg, ms, False, 'default', backend, init,
                                   nargs=min(4, ms + 2) if tier == 'quick' else min(5, ms + 2), spellings=1))
+    for mod in MODULES:
+        for alg in BOUNDED:
+            for km in ('raw', 'str'):
+                cfgs.append(C(mod, alg, 2, False, km, 'none', nargs=4, spellings=0, depth=6, states=500 if tier == 'quick' else 5000))
     cfgs += narrow_configs(tier)
     # purge=True with the archive switched off is "without purge" too: the policy branch runs on bookkeeping that an
     # earlier whole-cache purge has been through
@@ -447,6 +457,7 @@ def m_C18(tier):
             cfgs.append(C(mod, alg, ms, False, 'str', 'dict', tol=1, args='float'))
             cfgs.append(C(mod, alg, ms, False, 'default', 'dict', tol=0, deep=True, args='float'))
     cfgs += twin_configs(tier)
+    cfgs += [c for c in falsy_configs(tier) if c['backend'] == 'dict' and not c['purge']]      # lookup() of a resident None / 0 / ''
     if tier == 'thorough':
         for mod in MODULES:
             for alg in ALL:
